@@ -1039,6 +1039,14 @@ class Avr(Machine):
             R[self.reg(o[0])] = {0x3d: self.spv & 0xFF, 0x3e: self.spv >> 8, 0x3f: (self.sreg_i << 7) | (self.T << 6) | (self.Z << 1) | self.C}[p]
         elif mn == "out":
             p, v = self.io(o[0]), R[self.reg(o[1])]
+            # The stack pointer is written one byte at a time: in between it can be 256 bytes away from any frame of
+            # this routine.  With interrupts enabled an interrupt taken there pushes into memory outside the routine's
+            # own stack frame, so both halves must be written with the I flag clear - or, for the second half, in the
+            # one instruction after SREG was restored, during which no interrupt is accepted.
+            if p in (0x3d, 0x3e) and self.sreg_i and getattr(self, "_sreg_written_at", -9) != self.steps - 1:
+                self.violations.append("stack pointer %s byte written with interrupts enabled (an interrupt between the two writes would push outside the routine's own stack frame)" % ("low" if p == 0x3d else "high"))
+            if p == 0x3f:
+                self._sreg_written_at = self.steps
             if p == 0x3d:
                 self.spv = (self.spv & 0xFF00) | v
             elif p == 0x3e:
